@@ -1,5 +1,6 @@
 import BoxoModel.C35.Mark
 import BoxoModel.C35.Types
+import BoxoModel.C35.Loop
 /-!
 # C35 — Bitswap per-peer want-list converges to the client's current wants
 
@@ -172,6 +173,28 @@ theorem c35_type_tracks {cfg : Cfg} {s : St} (h : Reach cfg s) (c : Nat) (hc : s
     (effPeer s).blk c = true ∨ s.q.peer.pending.blk c = true :=
   (reach_tinv h).t1 c hc
 
+/-- **No lost wake-up** (the run loop, `runQueue`): whenever the sender is back in the loop's `select`
+and work is queued (pending wants or cancels, i.e. `HasMessage()`), a work signal is waiting in
+`outgoingWork`, and the loop listens for it or the debounce timer that makes it listen again is armed.
+So `Ev.wake` is enabled at once or right after `Ev.timer`: the real loop does reach the idle states the
+other theorems speak about — it cannot go to sleep on queued work. -/
+theorem c35_no_lost_wakeup {cfg : Cfg} {s : St} (h : Reach cfg s) (hi : isIdle s.ph = true)
+    (hw : workCount s.q > 0) :
+    enabled cfg s .wake ∨ (enabled cfg s .timer ∧ enabled cfg (step cfg s .timer) .wake) := by
+  have hl := reach_linv h
+  have hs := hl.l1 hi hw
+  rcases hl.l2 with h2 | h2
+  · exact .inl ⟨hi, h2, hs⟩
+  · exact .inr ⟨h2, hi, rfl, hs⟩
+
+/-- the idle states are exactly: sender in the loop's select and no work queued -/
+theorem c35_quiet_iff (s : St) : s.quiet ↔ (isIdle s.ph = true ∧ workCount s.q = 0) := by
+  unfold St.quiet workCount
+  constructor
+  · rintro ⟨h1, h2, h3, h4⟩; simp [h1, h2, h3, h4]
+  · rintro ⟨h1, h2⟩
+    refine ⟨h1, ?_, ?_, ?_⟩ <;> apply List.eq_nil_of_length_eq_zero <;> omega
+
 /-! ### Non-vacuity: concrete interleavings (decided by evaluation of the model) -/
 
 def run (cfg : Cfg) (evs : List Ev) (s : St) : St := evs.foldl (step cfg) s
@@ -225,5 +248,12 @@ example : (run cfgTiny evsW3 {}).quiet ∧ (run cfgTiny evsW3 {}).peerWL.has 1 =
 
 /-- types: without HAVE support the broadcast want 3 is a want-block at the peer -/
 example : (run cfgTiny evsW3 {}).peerWL.blk 1 = true ∧ (run cfgTiny evsW3 {}).peerWL.blk 3 = true := by decide
+
+/-- the lost wake-up witness (size limit of one entry, the entry that fits is cancelled during the fill
+phase): the repaired queue signals the want that is left, the loop wakes and sends it -/
+def evsW4 : List Ev := [.want [0, 1] [], .wake, .snap [], .fill 1, .cancel [0], .mark, .timer, .wake,
+  .snap [], .fill 1, .mark, .deliver]
+example : Reach cfgTiny (run cfgTiny evsW4 {}) := reach_run _ _ _ .init (by decide)
+example : (run cfgTiny evsW4 {}).quiet ∧ (run cfgTiny evsW4 {}).peerWL.has 1 = true := by decide
 
 end C35
